@@ -474,4 +474,129 @@ theorem join_rest_closed_once (ss : List (Src α)) (hss : ∀ x ∈ ss, Open0 x)
   · exact h1 x hx
   · exact open0_close (h2 y hy)
 
+
+/-! ## Runs forwards Close to the peekable's source; its ports move the source by at most one step -/
+
+theorem peekPeek_moves (m : SM σ α) (p : PeekSt σ α) (c : Bool) :
+    (peekPeek m p c).2.inner = p.inner ∨ (peekPeek m p c).2.inner = (m.step p.inner c).2 := by
+  obtain ⟨s, curr⟩ := p
+  cases curr with
+  | some a => left; simp [peekPeek, stPeekPulls]
+  | none =>
+    right
+    rcases hy : m.step s c with ⟨r, u⟩
+    cases r <;> simp [peekPeek, stPeekPulls, hy]
+
+theorem peekNext_has (m : SM σ α) (s : σ) (a : α) (c : Bool) :
+    (peekNext m ⟨s, some a⟩ c).2.inner = s := by
+  simp [peekNext, stPeekNextHas]
+
+theorem runsInner_moves (same : α → α → Bool) (m : SM σ α) (g : Nat) (st : RunsSt σ α) (c : Bool) :
+    (runsInner same m g st c).2.pk.inner = st.pk.inner ∨
+      (runsInner same m g st c).2.pk.inner = (m.step st.pk.inner c).2 := by
+  obtain ⟨⟨s, curr⟩, gen, live⟩ := st
+  cases live with
+  | none => left; simp [runsInner]
+  | some l =>
+    obtain ⟨g', prev, det⟩ := l
+    by_cases hg1 : g' = g
+    case neg => left; simp [runsInner, hg1]
+    subst hg1
+    cases det with
+    | true => left; simp [runsInner]
+    | false =>
+      cases curr with
+      | some a =>
+        left
+        by_cases hb : same prev a = true
+        · simp [runsInner, peekPeek, stPeekPulls, hb, peekNext, stPeekNextHas]
+        · simp [runsInner, peekPeek, stPeekPulls, hb]
+      | none =>
+        right
+        rcases hy : m.step s c with ⟨r, u⟩
+        cases r with
+        | item a =>
+          by_cases hb : same prev a = true
+          · simp [runsInner, peekPeek, stPeekPulls, hy, stPeekSetsHas, hb, peekNext, stPeekNextHas]
+          · simp [runsInner, peekPeek, stPeekPulls, hy, stPeekSetsHas, hb]
+        | skip => simp [runsInner, peekPeek, stPeekPulls, hy]
+        | end_ => simp [runsInner, peekPeek, stPeekPulls, hy]
+        | err e => simp [runsInner, peekPeek, stPeekPulls, hy]
+
+theorem runsInnerClose_inner (g : Nat) (st : RunsSt σ α) : (runsInnerClose g st).pk = st.pk := by
+  unfold runsInnerClose
+  split
+  · split <;> rfl
+  · rfl
+
+theorem runsOuter_moves (same : α → α → Bool) (m : SM σ α) (st : RunsSt σ α) (c : Bool) :
+    (runsOuter same m st c).2.pk.inner = st.pk.inner ∨
+      (runsOuter same m st c).2.pk.inner = (m.step st.pk.inner c).2 := by
+  obtain ⟨⟨s, curr⟩, gen, live⟩ := st
+  cases live with
+  | some l =>
+    obtain ⟨g, prev, det⟩ := l
+    have h := runsInner_moves same m g ⟨⟨s, curr⟩, gen, some (g, prev, det)⟩ c
+    simp only [runsOuter]
+    rcases hr : runsInner same m g ⟨⟨s, curr⟩, gen, some (g, prev, det)⟩ c with ⟨r, st'⟩
+    rw [hr] at h
+    simp only at h
+    cases r with
+    | end_ =>
+      simp only
+      have e : ∀ x : RunsSt σ α, (if stRunsClosesCurr = true then runsInnerClose g x else x).pk = x.pk := by
+        intro x; split
+        · exact runsInnerClose_inner g x
+        · rfl
+      rw [e]; exact h
+    | err e => exact h
+    | item a => exact h
+    | skip => exact h
+  | none =>
+    have h := peekPeek_moves m ⟨s, curr⟩ c
+    simp only [runsOuter]
+    rcases hr : peekPeek m ⟨s, curr⟩ c with ⟨r, pk'⟩
+    rw [hr] at h
+    simp only at h
+    cases r <;> exact h
+
+/-- `Runs` (protocol machine) forwards to its source. -/
+theorem runsProto_forwards (same : α → α → Bool) (take : Option Nat) (cl : Bool) (m : SM σ α)
+    (hR : stRunsCloseForwards = true := by decide) (hP : stPeekCloseForwards = true := by decide) :
+    Forwards m (runsProto same take cl m) (fun st => st.rs.pk.inner) where
+  step := by
+    intro t c
+    obtain ⟨rs, cur⟩ := t
+    cases cur with
+    | none =>
+      have h := runsOuter_moves same m rs c
+      simp only [runsProto]
+      rcases hr : runsOuter same m rs c with ⟨r, rs'⟩
+      rw [hr] at h
+      simp only at h
+      cases r <;> exact h
+    | some x =>
+      obtain ⟨g, acc, k⟩ := x
+      simp only [runsProto]
+      by_cases ht : Juniper.Model.Iter.takeReached take k = true
+      · left; simp [ht]
+      · have ht' : Juniper.Model.Iter.takeReached take k = false := by simpa using ht
+        have h := runsInner_moves same m g rs c
+        rcases hr : runsInner same m g rs c with ⟨r, rs'⟩
+        rw [hr] at h
+        simp only at h
+        simp only [ht', hr, Bool.false_eq_true, if_false]
+        cases r with
+        | end_ =>
+          simp only
+          cases cl with
+          | true => simp only [if_true]; rw [runsInnerClose_inner]; exact h
+          | false => exact h
+        | item a => exact h
+        | skip => exact h
+        | err e => exact h
+  close := by
+    intro t
+    simp [runsProto, runsClose, hR, peekClose, hP]
+
 end Juniper.Proofs.StreamDen
